@@ -159,6 +159,10 @@ struct Scenario {
     /// edited: `phase2.layers` written] -> [the edited configuration loaded] -> [probe: a tool subprocess prints its environment]
     #[serde(default)]
     phase2: Option<Phase2>,
+    /// the status of the HTTP-error outcomes (1, 7); 0 = 500.  rip treats every non-2xx alike - a leak that depends on the
+    /// status (a 401 / 403 "debug aid" that shows the key, a 429 path) needs the status to occur
+    #[serde(default)]
+    http_status: u16,
 }
 #[derive(Clone, Serialize, Deserialize, Debug, Default)]
 struct Phase2 {
@@ -488,7 +492,69 @@ async fn child_drive_cli(spec: &ChildSpec, rip: &str) -> ChildObs {
         None
     };
     let doctor_args: Vec<String> = vec!["config".into(), "doctor".into()];
-    if let Some(extra) = &spec.cli_run {
+    if let (Some(p2), Some(extra)) = (&spec.phase2, &spec.cli_run) {
+        // MULTI-STEP through the CLI: `rip run` (spawns the local authority; the provider asks for a bash call) -> the
+        // configuration files are edited -> [`rip config doctor`] -> `rip run` again (attaches to the SAME authority process)
+        let cont_dir = Path::new(&spec.data_dir).join("continuity_streams");
+        let snaps = Path::new(&spec.data_dir).join("snapshots");
+        // run_ended frames in the thread's stream file (`<id>.jsonl`; the sidecars have further dots) and finished snapshots
+        let runs_ended = |dir: &Path| -> usize {
+            let frames: usize = std::fs::read_dir(dir)
+                .map(|rd| {
+                    rd.flatten()
+                        .filter(|e| e.file_name().to_string_lossy().ends_with(".jsonl") && e.file_name().to_string_lossy().matches('.').count() == 1)
+                        .filter_map(|e| std::fs::read_to_string(e.path()).ok())
+                        .map(|t| t.matches("\"type\":\"continuity_run_ended\"").count())
+                        .sum()
+                })
+                .unwrap_or(0);
+            let snapshots = std::fs::read_dir(&snaps).map(|rd| rd.flatten().filter(|e| e.metadata().map(|m| m.len() > 0).unwrap_or(false)).count()).unwrap_or(0);
+            frames.min(snapshots)
+        };
+        let one_run = |obs: &mut ChildObs, prompt: String, want: usize| {
+            let mut args: Vec<String> = vec!["run".into(), prompt];
+            args.extend(extra.iter().cloned());
+            if let Some(out) = run_cli(obs, &args) {
+                obs.bodies.push(("rip run".into(), out));
+                for _ in 0..12000 {
+                    // (the full sidecar and the messages+runs sidecar both hold the frame)
+                    if runs_ended(&cont_dir) >= want {
+                        break;
+                    }
+                    std::thread::sleep(Duration::from_millis(10));
+                }
+            }
+        };
+        one_run(&mut obs, format!("{} (warm-up)", spec.prompt), 1);
+        for (path, text) in &p2.files {
+            if let Some(dir) = Path::new(path).parent() {
+                let _ = std::fs::create_dir_all(dir);
+            }
+            let tmp = format!("{path}.rv-tmp");
+            if std::fs::write(&tmp, text).and_then(|_| std::fs::rename(&tmp, path)).is_err() {
+                obs.errors.push(format!("could not write the edited configuration file {path}"));
+            }
+        }
+        if p2.load == "doctor" {
+            let d: Value = run_cli(&mut obs, &doctor_args).and_then(|s| serde_json::from_str(&s).ok()).unwrap_or(Value::Null);
+            if d["openresponses"]["api_key_source"].as_str() != Some(&format!("env:{}", p2.name)) {
+                obs.errors.push(format!("the edited configuration was not picked up: `rip config doctor` says {}", d["openresponses"]));
+            }
+        }
+        one_run(&mut obs, spec.prompt.clone(), 2);
+        // the probe's session is the last one of the log
+        let sid = std::fs::read_to_string(Path::new(&spec.data_dir).join("events.jsonl"))
+            .ok()
+            .and_then(|t| t.lines().rev().filter(|l| l.contains("\"type\":\"session_started\"")).find_map(|l| serde_json::from_str::<Value>(l).ok().and_then(|v| v["session_id"].as_str().map(String::from))))
+            .unwrap_or_default();
+        let out = tool_stdout_of(Path::new(&spec.data_dir), &sid);
+        if !out.lines().any(|l| l.starts_with("PATH=")) {
+            let log = std::fs::read_to_string(Path::new(&spec.data_dir).join("events.jsonl")).unwrap_or_default();
+            let types: Vec<String> = log.lines().filter_map(|l| serde_json::from_str::<Value>(l).ok()).map(|v| format!("{}:{}", v["session_id"].as_str().unwrap_or("?").chars().take(4).collect::<String>(), v["type"].as_str().unwrap_or("?"))).collect();
+            obs.errors.push(format!("the probe (rip run) shows no PATH: {} (probe session {sid}; log: {})", out.chars().take(200).collect::<String>(), types.join(" ")));
+        }
+        obs.probe_out = Some(out);
+    } else if let Some(extra) = &spec.cli_run {
         // the whole run through the CLI: `rip run <prompt> ..` (headless; prints the frames / the output / the metrics)
         let mut args: Vec<String> = vec!["run".into(), spec.prompt.clone()];
         args.extend(extra.iter().cloned());
@@ -511,6 +577,11 @@ async fn child_drive_cli(spec: &ChildSpec, rip: &str) -> ChildObs {
     }
     obs.doctor = run_cli(&mut obs, &doctor_args).and_then(|s| serde_json::from_str(&s).ok()).unwrap_or(Value::Null);
     obs.doctor_after = run_cli(&mut obs, &doctor_args).and_then(|s| serde_json::from_str(&s).ok()).unwrap_or(Value::Null);
+    if let Some(p2) = &spec.phase2 {
+        if obs.doctor_after["openresponses"]["api_key_source"].as_str() != Some(&format!("env:{}", p2.name)) {
+            obs.errors.push(format!("the edited configuration is not in effect at the end: doctor says {}", obs.doctor_after["openresponses"]));
+        }
+    }
     // the authority the CLI spawned
     let meta = ripd::read_authority_meta(Path::new(&spec.data_dir)).ok().flatten();
     if let Some(meta) = &meta {
@@ -1022,7 +1093,7 @@ fn ev_call(call_id: &str, name: &str, args: &str) -> Vec<Value> {
 }
 /// the provider's answers for a whole scenario: the outcome's script, or - multi-step - the warm-up's and the probe's
 fn script_for_scenario(sc: &Scenario) -> Vec<Scripted> {
-    let Some(p2) = &sc.phase2 else { return script_for(sc.outcome) };
+    let Some(p2) = &sc.phase2 else { return script_for(sc.outcome, if sc.http_status == 0 { 500 } else { sc.http_status }) };
     let ask = |id: &str, cmd: &str| {
         let mut first = vec![ev_created(&format!("resp_{id}_1"))];
         first.extend(ev_call(&format!("call_{id}"), "bash", &serde_json::to_string(&json!({ "command": cmd })).unwrap()));
@@ -1037,9 +1108,9 @@ fn script_for_scenario(sc: &Scenario) -> Vec<Scripted> {
     }
     v
 }
-fn script_for(outcome: u8) -> Vec<Scripted> {
+fn script_for(outcome: u8, status: u16) -> Vec<Scripted> {
     let echo = || {
-        let mut s = Scripted::http_error(500, "");
+        let mut s = Scripted::http_error(status, "");
         s.echo_request_body = true;
         s
     };
@@ -1102,6 +1173,9 @@ struct RunOut {
     authority: String,
     /// the canaries of this run (key core, header core, numeric)
     canaries: [String; 3],
+    /// process output that takes part in the DIFFERENTIAL (deterministic up to canonicalisation): the child's own stdout / stderr
+    /// (in-process router), the real `ripd` process's, and - when no invocation had to be repeated - `rip`'s stderr
+    proc_diff: Vec<(String, Vec<u8>)>,
 }
 
 fn walk(dir: &Path, base: &Path, out: &mut Vec<(String, Vec<u8>)>) {
@@ -1259,6 +1333,15 @@ fn run_once(sc: &Scenario, key: &str, hdr: &str, num: &str) -> RunOut {
     walk(&root.join("outer/ws/.rip"), &root, &mut files);
     let raw_responses = std::fs::read(root.join("out/raw.bin")).unwrap_or_default();
     let recorded = provider.recorded();
+    let mut proc_diff: Vec<(String, Vec<u8>)> = vec![
+        ("child-stdout".into(), out.stdout.clone()),
+        ("child-stderr".into(), out.stderr.clone()),
+        ("ripd-stdout".into(), std::fs::read(root.join("out/ripd.stdout")).unwrap_or_default()),
+        ("ripd-stderr".into(), std::fs::read(root.join("out/ripd.stderr")).unwrap_or_default()),
+    ];
+    if obs.cli_waits == 0 {
+        proc_diff.push(("rip-stderr".into(), obs.cli_runs.iter().flat_map(|(code, _, se)| format!("[exit {code}] {se}\n").into_bytes()).collect()));
+    }
     let mut child_stdout = out.stdout.clone();
     let mut child_stderr = out.stderr.clone();
     child_stdout.extend(std::fs::read(root.join("out/ripd.stdout")).unwrap_or_default());
@@ -1290,6 +1373,7 @@ fn run_once(sc: &Scenario, key: &str, hdr: &str, num: &str) -> RunOut {
         stderr: child_stderr,
         authority: obs_authority,
         canaries: [key.to_string(), hdr.to_string(), num.to_string()],
+        proc_diff,
         exit_ok: out.status.success(),
         root: root.display().to_string(),
         prov,
@@ -1883,6 +1967,9 @@ fn gen_scenario(rng: &mut Rng, i: u64) -> Scenario {
     sc.shape = if channel >= 8 { 0 } else { (((i % 8) + channel + i / 80) % N_SHAPES as u64) as u8 };
     let key_wrapped = key_template(rng, sc.shape);
     let hdr_secret = hdr_template(rng, sc.shape);
+    if sc.outcome == 1 || sc.outcome == 7 {
+        sc.http_status = [500u16, 401, 403, 429, 400, 404, 502, 503][((channel + i / 80 + (sc.outcome as u64 / 7)) % 8) as usize];
+    }
     let slot_choices: [u8; 7] = [0, 1, 2, 3, 4, 5, 6];
     let pick_slot = |rng: &mut Rng| *rng.pick(&slot_choices);
     let want = rng.below(3) as u8;
@@ -2362,7 +2449,10 @@ fn gen_multistep(rng: &mut Rng, j: u64, n_combos: u64) -> Scenario {
     }
     let name = ["ACME_LLM_TOKEN", "MY_PROVIDER_KEY", "acme_gateway_key"][((j / 7 + j) % 3) as usize];
     // (warm-up, load, probe, thread path, how the files change)
+    // the CLI variant: combination 1 (thread-path runs on both sides of the edit), loaded by the run or by `rip config doctor`
+    let cli = combo == 7;
     let (warmup, load, probe, thread, mode) = match combo {
+        7 => ("provider-bash", if j % 2 == 0 { "run" } else { "doctor" }, "provider-bash", true, 1 + (j % 3) as usize),
         0 => ("session-tool", "doctor", "session-tool", false, 0),
         1 => ("provider-bash", "run", "provider-bash", true, 1),
         2 => ("task", "doctor", "task", false, 2),
@@ -2416,6 +2506,13 @@ fn gen_multistep(rng: &mut Rng, j: u64, n_combos: u64) -> Scenario {
         sc.env.push(("RIP_OPENRESPONSES_DUMP_REQUEST".into(), "1".into()));
     }
     sc.phase2 = Some(Phase2 { warmup: warmup.into(), layers: p2_layers, load: load.into(), probe: probe.into(), name: name.into() });
+    if cli {
+        // both runs through the real `rip run` (the second invocation attaches to the authority the first one spawned)
+        sc.cli = true;
+        sc.real_authority = false;
+        sc.cli_run = Some(vec!["--view".into(), ["raw", "output", "metrics"][(j % 3) as usize].into()]);
+        sc.channel = format!("{} (rip run x2)", sc.channel);
+    }
     sc
 }
 
@@ -2579,6 +2676,7 @@ fn check_pair(a: &RunOut, b: &RunOut, cores: [&str; 6], sc: &Scenario) -> PairRe
     ]
     .into_iter()
     .chain(a.obs.bodies.iter().zip(b.obs.bodies.iter()).map(|(x, y)| ("http-response", format!("{} {}", x.0, task_list_sorted(&x.0, &x.1, a)).into_bytes(), format!("{} {}", y.0, task_list_sorted(&y.0, &y.1, b)).into_bytes())))
+    .chain(a.proc_diff.iter().filter_map(|(n, x)| b.proc_diff.iter().find(|(m, _)| m == n).map(|(_, y)| ("process-output", [n.as_bytes(), b": ", x.as_slice()].concat(), [n.as_bytes(), b": ", y.as_slice()].concat()))))
     .chain(sse_pairs(&a.obs.session_frames, &b.obs.session_frames).into_iter().map(|(x, y)| ("sse-frame", x, y)))
     .chain(sse_pairs(&a.obs.thread_frames, &b.obs.thread_frames).into_iter().map(|(x, y)| ("sse-frame", x, y)))
     {
@@ -2588,7 +2686,7 @@ fn check_pair(a: &RunOut, b: &RunOut, cores: [&str; 6], sc: &Scenario) -> PairRe
             let p = ca.iter().zip(cb.iter()).position(|(m, n)| m != n).unwrap_or(ca.len().min(cb.len()));
             let lo = p.saturating_sub(80);
             rep.violations.push((
-                format!("{}_depends_on_secret", if name.starts_with("doctor") { "diagnostics" } else { "response" }),
+                format!("{}_depends_on_secret", if name.starts_with("doctor") { "diagnostics" } else if name == "process-output" { "process_output" } else { "response" }),
                 format!(
                     "{name} differs between the two canary runs at byte {p}: …{}… vs …{}…",
                     String::from_utf8_lossy(&ca[lo..(p + 40).min(ca.len())]),
@@ -2675,8 +2773,8 @@ fn main() {
     // targeted generators first, a wall-clock budget, and it stops at the first leak
     let search = args.oracle_only();
     let budget_s: u64 = args.extra.get("budget-s").and_then(|v| v.parse().ok()).unwrap_or(if search { 150 } else { u64::MAX / 4 });
-    let n_multi_combos: u64 = if full { 7 } else { 4 };
-    let n_multi: u64 = args.extra.get("multistep").and_then(|v| v.parse().ok()).unwrap_or(if full { 7 * 7 * 2 } else { 7 * 4 + 3 });
+    let n_multi_combos: u64 = if full { 8 } else { 4 };
+    let n_multi: u64 = args.extra.get("multistep").and_then(|v| v.parse().ok()).unwrap_or(if full { 7 * 8 * 2 } else { 7 * 4 + 5 });
     let n_shapes: u64 = args.extra.get("shapes").and_then(|v| v.parse().ok()).unwrap_or(N_SHAPES as u64 * 3 * if full { 3 } else { 1 });
     let n_misfit: u64 = args.extra.get("misfit").and_then(|v| v.parse().ok()).unwrap_or(N_MISFIT as u64 * 7 * if full { 3 } else { 1 });
     let n_clirun: u64 = args.extra.get("clirun").and_then(|v| v.parse().ok()).unwrap_or(if full { 37 } else { 8 });
@@ -2692,7 +2790,7 @@ fn main() {
     }
     for j in 0..n_multi {
         // quick: the four main combinations for every config slot, then one of each remaining combination
-        let sc = if !full && j >= 28 { gen_multistep(&mut rng, (j - 28) % 7 + 7 * (4 + (j - 28) % 3), 7) } else { gen_multistep(&mut rng, j, n_multi_combos) };
+        let sc = if !full && j >= 28 { gen_multistep(&mut rng, (j - 28 + args.seed) % 7 + 7 * (4 + [0u64, 1, 2, 3, 3][((j - 28) % 5) as usize]), 8) } else { gen_multistep(&mut rng, j, n_multi_combos) };
         scenarios.push(sc);
     }
     for j in 0..n_shapes {
@@ -2781,6 +2879,9 @@ fn main() {
         res.bump(&format!("channel:{}", sc.channel));
         res.bump(&format!("outcome:{}", sc.outcome));
         res.bump(&format!("canary-shape:{}", shape_name(sc.shape)));
+        if sc.phase2.is_none() && (sc.outcome == 1 || sc.outcome == 7) {
+            res.bump(&format!("http-error-status:{}", if sc.http_status == 0 { 500 } else { sc.http_status }));
+        }
         if sc.phase2.is_some() {
             res.bump("multi-step-scenarios (spawn, edit, load, probe)");
         }
